@@ -44,7 +44,7 @@ try:
     meta = json.load(open(os.path.join(d, "meta.json")))
 except Exception:
     pass
-target = meta.get("property") or os.path.basename(d.rstrip("/")).split("-")[0]
+target = (meta.get("property") or os.path.basename(d.rstrip("/")).split("-")[0])[:3]
 out = {"target_property": target, "detected": bool(flag), "target_flagged": target in flag, "flagged": flag, "check_wall_s": secs,
        "ok_lines": sum(1 for l in open(os.path.join(W, "out.txt")) if l.startswith("OK "))}
 json.dump(out, open(os.path.join(d, "detected.json"), "w"), indent=1)
